@@ -1,7 +1,7 @@
 #!/venv/bin/python
 """Copy confirmed seeded changes into /verif/seeded/<id>/ with a meta.json recording what was run.
 
-usage: collect_seeded.py <mutant_root> <results.json>
+usage: collect_seeded.py <mutant_root> <results.json> [<id prefix, e.g. R2->]
 A change is kept only if: the patch applies to /repo HEAD, its demonstration exits 0 on the clean
 tree and non-zero with the change, and the unedited suite passes with the change.
 """
@@ -16,6 +16,7 @@ ROOT = os.path.dirname(os.path.dirname(os.path.abspath(__file__)))
 
 def main():
     root, resf = sys.argv[1:3]
+    prefix = sys.argv[3] if len(sys.argv) > 3 else ""
     res = json.load(open(resf))
     kept, dropped = [], []
     for mid, r in sorted(res.items()):
@@ -26,14 +27,15 @@ def main():
         if not ok:
             dropped.append((mid, {k: r.get(k) for k in ("applies", "demo_clean", "demo_mutant", "suite")}))
             continue
-        dst = os.path.join(ROOT, "seeded", mid.replace("/", "-"))
+        dst = os.path.join(ROOT, "seeded", prefix + mid.replace("/", "-"))
         os.makedirs(dst, exist_ok=True)
         shutil.copy(os.path.join(src, "patch.diff"), dst)
         shutil.copy(os.path.join(src, "demo.py"), dst)
         meta = json.load(open(os.path.join(src, "meta.json"))) if os.path.exists(os.path.join(src, "meta.json")) else {}
-        det = {c: v["exit"] for c, v in r.get("checks", {}).items()}
+        det = {c: v["exit"] for c, v in r.get("checks", {}).items() if not v.get("stale")}
         out = {
             "property": mid.split("/")[0],
+            "character": {"X": "two cooperating sites", "Y": "history", "Z": "unusual input"}.get(meta.get("character"), meta.get("character")),
             "summary": meta.get("summary"),
             "needs": meta.get("needs"),
             "files": meta.get("files"),
@@ -49,7 +51,8 @@ def main():
             },
             "quick_check_exit_codes": det,
             "detected_by": sorted(c for c, e in det.items() if e == 1),
-            "buckets": {c: v.get("buckets") for c, v in r.get("checks", {}).items() if v.get("exit") == 1},
+            "buckets": {c: v.get("buckets") for c, v in r.get("checks", {}).items() if v.get("exit") == 1 and not v.get("stale")},
+            "suite_rerun": r.get("suite_rerun"),
         }
         json.dump(out, open(os.path.join(dst, "meta.json"), "w"), indent=1)
         kept.append((mid, out["detected_by"]))
